@@ -232,6 +232,20 @@ class RewriteComponents(Target):
         return cl
 
 
+def _named(c, value, iteration, base):
+    """value == str(iteration) + '#' + base, whatever representation the engine chose for the formatted string"""
+    from pyvc import sstr
+    if c.mode != 'sym':
+        return value == '%d#%s' % (iteration, base)
+    if isinstance(value, sstr.SStr):
+        try:
+            return bool(sstr.equal(value, sstr.SStr([sstr.Num(iteration), sstr.Lit('#' + base)])))
+        except OutsideSubset:
+            return False
+    want = Sym(z3.Concat(z3.IntToStr(iteration.e if isinstance(iteration, Sym) else z3.IntVal(iteration)), z3.StringVal('#' + base)))
+    return Eq(value, want)
+
+
 class InstantiateDoWhile(Target):
     prop = 'C05'
     name = 'instantiate_dowhile'
@@ -293,14 +307,10 @@ class InstantiateDoWhile(Target):
                    for k in new_tmpl.get('loopBindings', {})))]
         if 'carried' in st.loop_bindings:
             b = used.get('carried')
-            if c.mode == 'sym':
-                prev = Sym(z3.Concat(z3.IntToStr(st.it_no.e - 1), z3.StringVal('#prod'))) if isinstance(st.it_no, Sym) else '%d#prod' % (st.it_no - 1)
-            else:
-                prev = '%d#prod' % (st.it_no - 1)
             is_ref = isinstance(b, Ref)
             cl += [('first-iteration-uses-the-given-binding', Implies(first, b is st.orig_bindings['carried'])),
                    ('loop-carried-input-comes-from-the-previous-iteration',
-                    Implies(Not(first), And(is_ref, Eq(b.producer, prev) if is_ref else False,
+                    Implies(Not(first), And(is_ref, _named(c, b.producer, binop('-', st.it_no, 1), 'prod') if is_ref else False,
                                             (b.filename == 'out.txt' and b.method == 'ref' and b.stage == 0) if is_ref else False)))]
         if 'agg' in st.loop_bindings:
             b = used.get('agg')
